@@ -390,6 +390,7 @@ func instrument(p *pkgInfo, f *ast.File, src []byte, simImport string) []byte {
 		ord++
 	}
 	syncAlias := ""
+	timeAlias := ""
 	for _, is := range f.Imports {
 		if strings.Trim(is.Path.Value, "\"") == "sync" {
 			syncAlias = "sync"
@@ -397,9 +398,16 @@ func instrument(p *pkgInfo, f *ast.File, src []byte, simImport string) []byte {
 				syncAlias = is.Name.Name
 			}
 		}
+		if strings.Trim(is.Path.Value, "\"") == "time" {
+			timeAlias = "time"
+			if is.Name != nil {
+				timeAlias = is.Name.Name
+			}
+		}
 	}
 	usedSim := false
 	rewroteSyncFunc := false
+	rewroteTime := false
 	commaOK := map[*ast.UnaryExpr]bool{}
 
 	// is this statement "shared"? (shallow: nested blocks and function literals excluded)
@@ -531,7 +539,7 @@ func instrument(p *pkgInfo, f *ast.File, src []byte, simImport string) []byte {
 				doList(x.Body, fn, api, first)
 				return false
 			case *ast.CallExpr:
-				rewriteCall(p, x, off, src, add, &usedSim, &rewroteSyncFunc)
+				rewriteCall(p, x, off, src, add, &usedSim, &rewroteSyncFunc, &rewroteTime)
 			case *ast.GoStmt:
 				if fl, ok := x.Call.Fun.(*ast.FuncLit); ok {
 					add(off(x.Pos()), 0, "{ zzT := zzsim.TaskNew(); ")
@@ -652,12 +660,15 @@ func instrument(p *pkgInfo, f *ast.File, src []byte, simImport string) []byte {
 	if rewroteSyncFunc && syncAlias != "" && syncAlias != "_" && syncAlias != "." {
 		b.WriteString("\nvar _ " + syncAlias + ".Once\n")
 	}
+	if rewroteTime && timeAlias != "" && timeAlias != "_" && timeAlias != "." {
+		b.WriteString("\nvar _ " + timeAlias + ".Duration\n")
+	}
 	_ = usedSim
 	return []byte(b.String())
 }
 
 func rewriteCall(p *pkgInfo, c *ast.CallExpr, off func(token.Pos) int, src []byte,
-	add func(o, del int, text string), usedSim, rewroteSyncFunc *bool) {
+	add func(o, del int, text string), usedSim, rewroteSyncFunc, rewroteTime *bool) {
 	fun := c.Fun
 	if ix, ok := fun.(*ast.IndexExpr); ok {
 		fun = ix.X
@@ -670,6 +681,17 @@ func rewriteCall(p *pkgInfo, c *ast.CallExpr, off func(token.Pos) int, src []byt
 		return
 	}
 	obj, ok := p.info.Uses[sel.Sel].(*types.Func)
+	if ok && obj.Pkg() != nil && obj.Pkg().Path() == "time" {
+		switch obj.FullName() {
+		case "time.Now", "time.Since", "time.Until":
+			// the library reads the simulated clock
+			add(off(sel.Pos()), off(sel.End())-off(sel.Pos()), "zzsim."+sel.Sel.Name)
+			rep.Rewrites[obj.FullName()]++
+			*usedSim = true
+			*rewroteTime = true
+		}
+		return
+	}
 	if !ok || obj.Pkg() == nil || obj.Pkg().Path() != "sync" {
 		return
 	}
